@@ -64,8 +64,8 @@ func TestBitHelpersExhaustive(t *testing.T) {
 				switch {
 				case firstData(op):
 					kind = "first"
-				case contOrCtl(op):
-					kind = "cont/ctl"
+				case contOrCtl(op), op&0x8 != 0:
+					kind = "cont/ctl" // 0xB-0xF are control frames too (RFC 6455 §5.2: opcode MSB set)
 				}
 				// sameButRsv1: nothing but RSV1 may differ
 				sameButRsv1 := func(g ws.Header) bool { g.Rsv = g.Rsv&^rsv1 | rsv&rsv1; return g == h }
@@ -142,7 +142,21 @@ func TestBitHelpersExhaustive(t *testing.T) {
 					g2, err2 = wsflate.SetBit(h)
 					switch {
 					case had:
-						// a header that already carries RSV1: refused today; nothing is promised — open
+						// the header already carries RSV1 (an earlier extension in the chain set it): refusing it
+						// is fine; a header that is let through must obey "RSV1 only on the first frame of a
+						// message marked compressed"
+						if err == nil && (g.Rsv&rsv1 != 0) != (kind == "first" && prior) && kind != "reserved" {
+							hx.Failf(t, c, "MessageState(compressed=%v).SetBits let %+v through as %+v", prior, h, g)
+							return
+						}
+						if err2 == nil && (g2.Rsv&rsv1 != 0) != (kind == "first") && kind != "reserved" {
+							hx.Failf(t, c, "SetBit let %+v through as %+v", h, g2)
+							return
+						}
+						if (err == nil && !sameButRsv1(g)) || (err2 == nil && !sameButRsv1(g2)) {
+							hx.Failf(t, c, "SetBits/SetBit changed more than RSV1: %+v / %+v from %+v", g, g2, h)
+							return
+						}
 					case kind == "first":
 						want := h
 						if prior {
@@ -157,9 +171,10 @@ func TestBitHelpersExhaustive(t *testing.T) {
 							return
 						}
 					case kind == "cont/ctl":
-						// must never gain RSV1; refusing the header altogether is left open
-						if err == nil && g != h {
-							hx.Failf(t, c, "MessageState(compressed=%v).SetBits changed a continuation/control header to %+v", prior, g)
+						// must never gain RSV1; the attached state must let it pass (a fragmented message and
+						// control frames are written through it)
+						if err != nil || g != h {
+							hx.Failf(t, c, "MessageState(compressed=%v).SetBits on a continuation/control header = %+v, %v; want it unchanged, nil", prior, g, err)
 							return
 						}
 						if err2 == nil && g2 != h {
@@ -195,6 +210,7 @@ type wireTracker struct {
 	rec    *tx.Rec
 	off    int
 	client bool
+	rsv2   bool // a second send extension sets RSV2 on every data frame
 	open   *wireMsg
 	done   []wireMsg
 	shape  []byte
@@ -242,6 +258,11 @@ func (w *wireTracker) data(fs []ref.Frame, op byte, flag bool, final bool) error
 		if f.H.Rsv&1 != 0 {
 			return fmt.Errorf("frame %v carries RSV3, which no attached extension sets", f.H)
 		}
+		// RSV2 belongs to the other attached extension (sets it on every frame) or to nobody:
+		// the message state sets "the Per-Message Compression bit" and nothing else
+		if (f.H.Rsv&2 != 0) != w.rsv2 {
+			return fmt.Errorf("frame %v: RSV2=%v, but the second attached extension sets it on every frame=%v", f.H, f.H.Rsv&2 != 0, w.rsv2)
+		}
 		w.open.Frames++
 		w.open.Payload = append(w.open.Payload, f.Payload...)
 		c := byte('d')
@@ -271,8 +292,8 @@ func (w *wireTracker) control(fs []ref.Frame, op byte, payload []byte) error {
 	if f.H.Rsv&rsv1 != 0 {
 		return fmt.Errorf("control frame %v carries RSV1", f.H)
 	}
-	if f.H.Rsv&1 != 0 {
-		return fmt.Errorf("control frame %v carries RSV3", f.H)
+	if f.H.Rsv&3 != 0 {
+		return fmt.Errorf("control frame %v carries RSV2/RSV3, which nothing on its path sets", f.H)
 	}
 	if w.open != nil {
 		w.open.Ctl++
@@ -452,7 +473,7 @@ func TestWriterWire(t *testing.T) {
 		ops := []ws.OpCode{ws.OpText, ws.OpBinary}
 		op := rapid.SampledFrom(ops).Draw(t, "op0")
 		w := setup.build(rec, op, &ms)
-		wt := &wireTracker{rec: rec, client: setup.Client}
+		wt := &wireTracker{rec: rec, client: setup.Client, rsv2: setup.Rsv2Ext != 0}
 		nmsg := rapid.IntRange(1, 4).Draw(t, "msgs")
 		hx.Eval()
 		for m := 0; m < nmsg; m++ {
